@@ -1,7 +1,7 @@
 """C17 Indexed table queries return exactly what a full scan would."""
 from vf.run import obligation
 import symx
-from symx import is_sym
+from symx import is_sym, unwrap
 
 from coba.results.core import Table, Missing, View
 
@@ -326,3 +326,35 @@ def union_order(sym, idx, form):
         got = t.where(None, '<=', a=x1, b=x2); keep = lambda r: (r[0]<=x1) | (r[1]<=x2)
     exp = [r[2] for r in table_rows if keep(r)]
     sym.check([r[2] for r in rows_of(got)] == exp, f"union of keyword conditions not in table order / wrong rows ({form})")
+
+# ---------------------------------------------------------------------------------------------------
+@obligation('C17','reindex', bounds={'quick':"insert(3 rows quick / 2..4 thorough from a menu of 4 concrete tables) ; index(I1) ; [a query] ; index(I2) with I1 != I2 (5 ordered pairs of {(a),(b),(a,b),(b,a)}; all 12 in the thorough tier) and NO insert in between ; where on a or b with {=,<=,>,in,!=} and a symbolic argument in [-2,7], and groupby on the first level: equal to a scan / to the distinct values",
+                                     'thorough':"n<=4"},
+            functions=FUNCS, params=lambda tier: [dict(n=n, i1=i, i2=j) for n in ((3,) if tier == 'quick' else (2,3,4)) for i,j in ([(3,4),(4,3),(1,3),(3,2),(2,1)] if tier == 'quick' else [(i,j) for i in (1,2,3,4) for j in (1,2,3,4) if i != j])],
+            budget={'quick':80,'thorough':900})
+def reindex(sym, n, i1, i2):
+    MENU = [[(1,5),(1,6),(2,4),(2,5)], [(0,1),(1,0),(0,0),(1,1)], [(2,1),(1,2),(2,2),(1,1)], [(-1,0),(0,-1),(1,1),(0,0)]]
+    rows = [list(r) for r in sym.choice('table', MENU)[:n]]
+    for k,r in enumerate(rows): r.append(k)
+    t = Table(columns=['a','b','id']).insert([list(r) for r in rows])
+    t.index(*INDEXES[i1])
+    if sym.flag('query_between'):
+        list(t.where(a=0)['id'])
+        if len(INDEXES[i1]) == 2: list(t.groupby(1, 'count'))
+    t.index(*INDEXES[i2])
+    trows = [list(r) for r in zip(t['a'],t['b'],t['id'])]
+    sym.check(sorted(r[2] for r in trows) == list(range(n)), "re-index dropped or duplicated rows")
+    col = sym.choice('col', ['a','b']); ci = 0 if col == 'a' else 1
+    op = sym.choice('op', ['=','<=','>','in','!='])
+    x = sym.int('x', -2, 7)
+    arg = [x, sym.int('x2', -2, 7)] if op == 'in' else x
+    got = t.where(**{col: {op: arg}})
+    gotids = list(got['id'])
+    exp = [r[2] for r in trows if holds(r[ci], op, arg)]
+    sym.check(gotids == exp, f"where {col} {op} after index{INDEXES[i1]} ; index{INDEXES[i2]}: rows {gotids}, a scan gives {exp}")
+    if len(INDEXES[i2]) == 2:
+        li = 0 if INDEXES[i2][0] == 'a' else 1
+        groups = list(t.groupby(1, 'count'))
+        counts = {}
+        for r in trows: counts[r[li]] = counts.get(r[li], 0) + 1
+        sym.check(sorted((tuple(g[0])[0], g[1]) for g in groups) == sorted(counts.items()), f"groupby level 1 after re-index: {groups} but the column has {counts}")
